@@ -299,6 +299,13 @@ def judgeC07 (o : Obs) (userErrors : Bool := false) : Verdict :=
       | _, none => []
     else [])
 
+/-- `run(.., till=T)` executes nothing at a virtual time later than T (and ends without raising on its own account) -/
+def judgeC07till (o : Obs) (till : Rat) (userErrors : Bool := false) : Verdict :=
+  fail (internalCode (o.crash.headD 0) && !(userErrors && (o.crash.headD 0 == 9 || o.crash.headD 0 == 12)))
+    s!"run(till={till}) ended with an internal error {o.crash}" ++
+  ((o.events.filter (fun (e : Ev) => e.time > till && e.label < 10000)).take 3).map (fun (e : Ev) =>
+    s!"run(till={till}): activity {e.label} still acts at {e.time} ({e.tag})")
+
 /-! ### C08 - conditions -/
 
 def judgeC08 (o : Obs) : Verdict :=
